@@ -135,3 +135,37 @@ def deep_expression(calls, lists, adds, terms, zero):
     lines = p.stdout.splitlines()
     bad = [ln for ln in lines if "ESCAPE" in ln] or ([] if len(lines) == 2 else [f"process failed: {p.stderr[-200:]}"])
     return not bad, f"expression with {calls} nested calls, {lists} nested lists, {adds} additions, {terms} logical terms ({len(e)} chars): {'; '.join(lines) or p.stderr[-200:]}"
+
+
+def compile_sequence(n, every_bad):
+    """one Environment per runner class, n compile() calls in a row on distinct texts, every `every_bad`-th malformed, each valid text also
+    built and evaluated: every call ends in a tree / value or the library's own errors, however many calls came before"""
+    import celpy
+    for runner in (celpy.InterpretedRunner, celpy.CompiledRunner):
+        env = celpy.Environment(runner_class=runner)
+        for i in range(n):
+            bad = every_bad and i % every_bad == 0
+            text = f"{i} +* {i}" if bad else f"x + {i} > {i // 2}"
+            try:
+                ast = env.compile(text)
+                if bad:
+                    return False, f"compile({text!r}) (call {i + 1} on one Environment, {runner.__name__}) returned a tree"
+                if i % 16 == 1:
+                    env.program(ast).evaluate({"x": celpy.celtypes.IntType(i)})
+            except celpy.CELParseError:
+                if not bad:
+                    return False, f"compile({text!r}) (call {i + 1}) raised CELParseError for a valid text"
+            except celpy.CELEvalError:
+                pass
+            except Exception as ex:  # noqa: BLE001
+                return False, f"compile({text!r}) as call {i + 1} on one Environment ({runner.__name__}): {type(ex).__name__} escaped: {ex}"
+        # the same texts again (a cache hit path), then a burst of repeated failures
+        for i in list(range(0, n, 7)) + [0] * 40:
+            text = f"{i} +* {i}" if (every_bad and i % every_bad == 0) else f"x + {i} > {i // 2}"
+            try:
+                env.compile(text)
+            except celpy.CELParseError:
+                pass
+            except Exception as ex:  # noqa: BLE001
+                return False, f"compile({text!r}) repeated on one Environment ({runner.__name__}): {type(ex).__name__} escaped: {ex}"
+    return True, "ok"
